@@ -52,7 +52,9 @@ struct Req {
 
 const API_NAMES: [&str; 8] = ["schedule_event", "schedule_keyed_event", "schedule_periodic_event", "schedule_keyed_periodic_event", "schedule(EventSource::event)", "schedule(EventSource::keyed_event)", "schedule(EventSource::periodic_event)", "schedule(EventSource::keyed_periodic_event)"];
 
-fn threaded_case(rep: &mut Report, opts: &Opts, case: u64) {
+pub fn threaded_case(rep: &mut Report, opts: &Opts, case: u64, prop: &str) {
+    // Signatures are reported under the property that runs the workload.
+    let sg = |s: &str| -> String { if prop == "C08" { s.to_string() } else { format!("{}/via-{}", prop, s) } };
     let cs = h2(opts.seed, 0xC08_7000 + case);
     let mut rng = Rng::new(cs);
     let nthreads = rng.range(1, if cfg!(miri) { 2 } else { 4 }) as usize;
@@ -68,7 +70,7 @@ fn threaded_case(rep: &mut Report, opts: &Opts, case: u64) {
     exec.cfg.p_other = 0;
     exec.cfg.max_sleep_us = 100;
     let replay = opts.replay_args("threads", case);
-    rec::set_context("C08/hang/stepping-call-never-returns", &replay);
+    rec::set_context(&format!("{}/hang/stepping-call-never-returns", prop), &replay);
     let (mut built, sh) = match bench::build_and_init(&spec, &exec) {
         Ok(x) => x,
         Err(e) => {
@@ -229,7 +231,7 @@ fn threaded_case(rep: &mut Report, opts: &Opts, case: u64) {
     let mut racy = 0u64;
     let mut per_api = [0u64; 8];
     if let Some(e) = &step_err {
-        rep.violation("C08/stepping-failed-under-concurrent-scheduling", format!("a stepping call returned {:?} while scheduler handles were used concurrently", e), replay.clone());
+        rep.violation(sg("C08/stepping-failed-under-concurrent-scheduling"), format!("a stepping call returned {:?} while scheduler handles were used concurrently", e), replay.clone());
     }
     for r in &all {
         if r.t_before != r.t_after {
@@ -242,24 +244,24 @@ fn threaded_case(rep: &mut Report, opts: &Opts, case: u64) {
         if r.ok {
             accepted += 1;
             if !r.relative && r.deadline <= r.t_before {
-                rep.violation("C08/accepted-deadline-not-in-future", ctx(r), replay.clone());
+                rep.violation(sg("C08/accepted-deadline-not-in-future"), ctx(r), replay.clone());
             }
             if r.relative && r.deadline == 0 {
-                rep.violation("C08/accepted-deadline-not-in-future", ctx(r), replay.clone());
+                rep.violation(sg("C08/accepted-deadline-not-in-future"), ctx(r), replay.clone());
             }
             if step_err.is_none() {
                 match seen.get(&r.uid).map(|v| v.as_slice()) {
-                    None | Some([]) => rep.violation("C08/accepted-request-never-fired", ctx(r), replay.clone()),
+                    None | Some([]) => rep.violation(sg("C08/accepted-request-never-fired"), ctx(r), replay.clone()),
                     Some(v) => {
                         let first = v[0];
                         if first < dl_lo || first > dl_hi {
-                            rep.violation("C08/accepted-request-fired-at-wrong-time", format!("{}; processed at time {}", ctx(r), first), replay.clone());
+                            rep.violation(sg("C08/accepted-request-fired-at-wrong-time"), format!("{}; processed at time {}", ctx(r), first), replay.clone());
                         }
                         // Occurrences of one request are handled by one model, in
                         // time order: occurrence k must be at first + k * period.
                         let regular = v.iter().enumerate().all(|(k, t)| r.periodic && *t == first + k as u64 * FAR_PERIOD);
                         if v.len() > 1 && !regular {
-                            rep.violation("C08/accepted-request-fired-more-than-once", format!("{}; processed at {:?} (period {})", ctx(r), v, if r.periodic { FAR_PERIOD } else { 0 }), replay.clone());
+                            rep.violation(sg("C08/accepted-request-fired-more-than-once"), format!("{}; processed at {:?} (period {})", ctx(r), v, if r.periodic { FAR_PERIOD } else { 0 }), replay.clone());
                         }
                     }
                 }
@@ -267,13 +269,13 @@ fn threaded_case(rep: &mut Report, opts: &Opts, case: u64) {
         } else {
             rejected += 1;
             if !r.relative && r.deadline > r.t_after {
-                rep.violation("C08/rejected-deadline-in-future", ctx(r), replay.clone());
+                rep.violation(sg("C08/rejected-deadline-in-future"), ctx(r), replay.clone());
             }
             if r.relative && r.deadline > 0 {
-                rep.violation("C08/rejected-deadline-in-future", ctx(r), replay.clone());
+                rep.violation(sg("C08/rejected-deadline-in-future"), ctx(r), replay.clone());
             }
             if seen.contains_key(&r.uid) {
-                rep.violation("C08/rejected-request-fired", ctx(r), replay.clone());
+                rep.violation(sg("C08/rejected-request-fired"), ctx(r), replay.clone());
             }
         }
     }
@@ -282,7 +284,7 @@ fn threaded_case(rep: &mut Report, opts: &Opts, case: u64) {
     }
     let b = backwards.load(Relaxed) + main_backwards;
     if b > 0 {
-        rep.violation("C08/simulation-time-decreased", format!("simulation time was observed to decrease {} times (scheduler handles / Simulation::time)", b), replay.clone());
+        rep.violation(sg("C08/simulation-time-decreased"), format!("simulation time was observed to decrease {} times (scheduler handles / Simulation::time)", b), replay.clone());
     }
     rep.count("requests_accepted", accepted);
     rep.count("requests_rejected", rejected);
@@ -314,7 +316,7 @@ pub fn run(opts: &Opts) -> Report {
         let n = if cfg!(miri) { 2 } else { opts.n(480, 4800) };
         for case in 0..n {
             if opts.mine(case) {
-                threaded_case(&mut rep, opts, case);
+                threaded_case(&mut rep, opts, case, "C08");
             }
         }
         rep.extra.insert("probe_sites_hit_and_delayed".into(), rec::coverage_json());
